@@ -462,13 +462,13 @@ func SuperMain(propID, tier string, replayCase *Case) int {
 				"distinct_sets":       setCounts,
 				"worker_deaths":       rc.deaths,
 			},
-			"assumptions":          p.Assumptions,
-			"wall_s":               time.Since(start).Seconds(),
-			"violations":           nviol,
-			"unlisted_violations":  len(unlisted),
-			"known_findings_seen":  kfSeen,
-			"inconclusive":         inconclusive,
-			"repo":                 repoState(),
+			"assumptions":         p.Assumptions,
+			"wall_s":              time.Since(start).Seconds(),
+			"violations":          nviol,
+			"unlisted_violations": len(unlisted),
+			"known_findings_seen": kfSeen,
+			"inconclusive":        inconclusive,
+			"repo":                repoState(),
 		}
 		b, _ := json.MarshalIndent(ev, "", " ")
 		os.MkdirAll(filepath.Join(VerifDir, "evidence"), 0755)
